@@ -1342,6 +1342,19 @@ impl Th {
                     );
                     violation("C05", "O-upgrade", &sig, &d);
                 }
+                if ob.popped {
+                    // it returned a reference, which by C01/C02 keeps the object alive from the
+                    // instant of its successful increment on; so destruction cannot have started
+                    let sig = format!(
+                        "O-upgrade/success-although-destructed-during-call/{}",
+                        match ob.dispose_depth { Some(0) => "root", Some(_) => "cascade", None => "unknown" }
+                    );
+                    let d = format!(
+                        "{} of obj{} returned a reference, but the object's destruction started while the call was in progress (popped={} dropped={} freed={}); trace: {}",
+                        what, o, ob.popped, ob.dropped, ob.freed, s.tail(40)
+                    );
+                    violation("C05", "O-upgrade", &sig, &d);
+                }
                 s.objs[o].upgrades_ok_before += 1;
                 s.bump("upgrade_ok");
                 if s.strong_owner_count(o) == 0 {
